@@ -93,3 +93,10 @@ TEXTS["C17"] = {
     "level_note": "Trusts that the harness is the only writer between the solo and the concurrent runs (checked by a second solo run). Disk-only queries are generated only when nothing or everything is on disk, because zenodb's flush timer (re-armed to 10x the last flush duration) otherwise moves data on its own between the runs.",
     "technique": "property-based testing (rapid), differential oracle: concurrent (coalesced) execution vs solo execution of the same query",
 }
+
+TEXTS["C13"] = {
+    "level_text": "Fault enumeration by generated fault descriptors: per generated dataset and query the harness injects one fault configuration - an expired deadline, a deadline crossed inside a chosen row callback, an always-exceeded memory cap, per-partition behaviours (no handler, error before/after k rows, blocking past the timeout, slow) on a 1-4 partition cluster, caller deadlines, and for the HTTP API response-size limits, QueryTimeout and cache replays - and compares with the fault-free run. Decides the implication 'incomplete => told' (error, missing-partition statistics, HTTP status). Fault kinds are enumerated by the generator and counted in the evidence; it does not enumerate every instant at which a deadline can fall.",
+    "design_ref": "DESIGN.md section 4 C13",
+    "level_note": "Trusts the fault-free run as ground truth (its correctness is C01/C10/C11's subject), the harness partition handlers (FollowerHandler mirrors DB.queryForRemote), and httptest for the web part. The oracle is one-directional on purpose: an error or a 5xx on a complete result is not a C13 violation.",
+    "technique": "property-based testing (rapid) with injected faults (deadlines, failing/blocking partition handlers, size limits), differential oracle against the fault-free run",
+}
